@@ -144,7 +144,16 @@ def want_array(t, vs):
     if base == "char":
         return ("b", b"".join(x[1] for x in wt))
     if base == "wchar":
-        return ("s", [x[1][0] for x in wt])
+        # UTF-16: a high surrogate followed by a low surrogate is ONE character outside the BMP
+        units, out, i = [x[1][0] for x in wt], [], 0
+        while i < len(units):
+            if 0xD800 <= units[i] < 0xDC00 and i + 1 < len(units) and 0xDC00 <= units[i + 1] < 0xE000:
+                out.append(0x10000 + ((units[i] - 0xD800) << 10) + (units[i + 1] - 0xDC00))
+                i += 2
+            else:
+                out.append(units[i])
+                i += 1
+        return ("s", out)
     return ("L", wt)
 
 
@@ -187,6 +196,10 @@ def gen_case(rng: random.Random, tier: str):
             n = rng.randint(1, 4)
             ops.append({"op": "array", "cs": c, "t": t, "vs": [gen_value(rng, t) for _ in range(n)], "cached": rng.random() < 0.5,
                         "cont": rng.randrange(16) if rng.random() < 0.5 else None})
+            if ALIAS.get(t, t) == "wchar" and rng.random() < 0.4:
+                # a character outside the BMP: two code units (surrogate pair) that decode to ONE character of the str
+                k_ = rng.randrange(len(ops[-1]["vs"]) + 1)
+                ops[-1]["vs"][k_:k_] = rng.choice([[0xD83D, 0xDE00], [0xD800, 0xDC00], [0xDBFF, 0xDFFF], [0xD834, 0xDD1E]])
             if rng.random() < 0.04:
                 # boundary sizes: a long array (the 1-4 generated values repeated), crossing block sizes and bulk-path thresholds
                 size = gen.SIZES[ALIAS.get(t, t)]
@@ -327,6 +340,8 @@ def _step(op, worlds, stats, fail):
             t = op["t"]
             if op.get("rep"):
                 op = dict(op, vs=(op["vs"] * (op["rep"] // len(op["vs"]) + 1))[: op["rep"]])
+                if ALIAS.get(t, t) == "wchar" and 0xD800 <= op["vs"][-1] < 0xDC00:
+                    op["vs"][-1] = 0x41  # the repetition was cut inside a surrogate pair: not valid UTF-16
                 stats.count("probe.long_array_255_to_65537_elements")
             n = len(op["vs"])
             key = (t, n)
